@@ -1230,6 +1230,17 @@ func runC16(c *CaseCtx) (res CaseResult) {
 				res.violate("C16", "nil-default-accepted", "a nil default option was accepted by NewFunc and by Call", det)
 			}
 		}
+		// ... and for a function WITHOUT inputs (nothing to resolve is no
+		// reason not to look at the options)
+		{
+			ran0 := 0
+			if f0, err := am.NewFunc(func() T0 { ran0++; return T0{ID: 1} }); err == nil {
+				if r0 := f0.Call(nil); r0.Err() == nil || ran0 != 0 {
+					res.violate("C16", "nil-option-accepted", fmt.Sprintf("a nil option given to a function without inputs: Err()=%v, executed %d times", r0.Err(), ran0), det)
+				}
+				res.Evals++
+			}
+		}
 		// the same for a run-once function that has already executed: its
 		// memoized result does not make a nil option acceptable
 		if c.Idx%3 == 0 {
